@@ -11,10 +11,13 @@ histories of **any** length:
   violation `translate_three_frames_not_rect` of the excluded case; `compress_empty_unchanged`);
 * `step_names_nodup` / `run_names_nodup` — names stay pairwise distinct unless the caller edits names;
 * `step_refines` / `run_refines` — refinement to the plain-list reference model `Gv.Spec.stepOp`, for
-  all 36 operations of the history language (`Unalign`, `RenameRegexp`, `SetAlphabet`,
-  `ReverseComplementSequences`, `DiffWithFirst`, `ReplaceMatchChars`, `Mask` and `MaskOccurences` / `MaskUnique` included);
+  all 39 operations of the history language (`Unalign`, `RenameRegexp`, `SetAlphabet`,
+  `ReverseComplementSequences`, `DiffWithFirst`, `ReplaceMatchChars`, `Mask`, `MaskOccurences` / `MaskUnique`, the general
+  `RemoveCharacterSites`, `RemoveMajorityCharacterSites` and `Replace` with a regular expression included);
 * `lookup_paths_agree`, `idByName_spec`, `byName_found_iff`, `obs_*` — the access paths agree;
-* `add_wrong_length_rejected` — a sequence of the wrong length is rejected, state unchanged.
+* `add_wrong_length_rejected` — a sequence of the wrong length is rejected, state unchanged;
+* `diffWithFirst_agrees_with_row_model` / `replaceMatchChars_agrees_with_row_model` — the container-level
+  `DiffWithFirst` / `ReplaceMatchChars` are the row-level models of property C04 on every rectangular alignment.
 
 Helper developments: `Gv/Proofs/Bag*.lean`.
 -/
@@ -166,6 +169,27 @@ theorem step_inv (b : Bag) (h : Inv b) (op : Op) (hw : OpWF b op) : Inv (stepOp 
     · split
       · exact h
       · rename_i r hr; exact (sameShape_maskOccBag hr).inv h
+  | rmCharSites cs num den ends ic ig iN rev =>
+    simp only [stepOp]
+    split
+    · exact h
+    · split
+      · exact h
+      · rename_i r hr
+        exact inv_cleanSitesBag (isCleanFn_char _ cs ends ic ig iN rev) b h r hr
+  | rmMajSites num den ends ig iN =>
+    simp only [stepOp]
+    split
+    · exact h
+    · split
+      · exact h
+      · rename_i r hr
+        exact inv_cleanSitesBag (isCleanFn_maj _ ends ig iN) b h r hr
+  | replaceRe ok seqs =>
+    simp only [stepOp]
+    split
+    · exact h
+    · exact inv_replaceRegexBag seqs b h
 
 /-- **Every reachable state satisfies the invariant**: induction over histories of any length, from
 any state satisfying it (in particular from the empty containers). -/
@@ -323,12 +347,13 @@ theorem add_wrong_length_error_of_new_name (b : Bag) (ha : b.isAlign = true) (n 
 permutation of the positions; `Translate` is asked for one frame, or for the three frames of an
 alignment whose length is `≡ 2 (mod 3)` (known finding `align-translate-3frames-ragged`: for any other
 length the three frames have different numbers of codons, see `translate_three_frames_not_rect`);
-`Replace` and `Concat` did not return an error (both end with a scan of the row lengths and *report* a
-ragged result). -/
+`Replace` (literal or with a regular expression) and `Concat` did not return an error (both end with a scan of the row
+lengths and *report* a ragged result). -/
 def RectOK (b : Bag) : Op → Prop
   | .permute perm => IsPerm perm b.rows.length
   | .translate ph _ => TranslateRectOK b ph
   | .replace old new => (stepOp b (.replace old new)).2 ≠ "err"
+  | .replaceRe ok seqs => (stepOp b (.replaceRe ok seqs)).2 ≠ "err"
   | .concat rows => (stepOp b (.concat rows)).2 ≠ "err"
   | _ => True
 
@@ -476,6 +501,32 @@ theorem step_rect (b : Bag) (h : Rect b) (op : Op) (hw : RectOK b op) : Rect (st
     · split
       · exact h
       · rename_i r hr; exact (sameShape_maskOccBag hr).rect h
+  | rmCharSites cs num den ends ic ig iN rev =>
+    simp only [stepOp]
+    split
+    · exact h
+    · split
+      · exact h
+      · rename_i r hr
+        exact rect_cleanSitesBag (isCleanFn_char _ cs ends ic ig iN rev) h r hr
+  | rmMajSites num den ends ig iN =>
+    simp only [stepOp]
+    split
+    · exact h
+    · split
+      · exact h
+      · rename_i r hr
+        exact rect_cleanSitesBag (isCleanFn_maj _ ends ig iN) h r hr
+  | replaceRe ok seqs =>
+    simp only [RectOK, stepOp] at hw
+    simp only [stepOp]
+    split
+    · exact h
+    · rename_i hok
+      simp only [hok] at hw
+      apply rect_replaceRegexBag seqs h
+      revert hw
+      cases (replaceRegexBag seqs b).2 <;> simp
 
 /-- **Every reachable alignment is rectangular**: induction over histories of any length. -/
 theorem run_rect (ops : List Op) (b : Bag) (h : Rect b) (hw : HistRectOK b ops) : Rect (finalState b ops) := by
@@ -614,11 +665,11 @@ def OpWFR (b : Bag) : Op → Prop
   | .sample _ perm => IsPerm perm b.rows.length
   | _ => True
 
-/-- **One step refines the reference model** — every one of the 36 operations of the history
+/-- **One step refines the reference model** — every one of the 39 operations of the history
 language (`add`, `ignore`, `clear`, `append`, `concat`, `rename`, `appendId`, `cleanNames`, `trimNames`,
 `trimAuto`, `sort`, `permute`, `filter`, `dedup`, `rmSeqs`, `translate`, `clone`, `sample`, `toUpper`,
 `toLower`, `replace`, `setChar`, `trimSeqs`, `autoAlpha`, `revcomp`, `replaceChar`, `rmGapSites`, `compress`,
-`unalign`, `renameRe`, `setAlpha`, `revcompSeqs`, `diffFirst`, `replaceMatch`, `mask`, `maskOcc`), arbitrary arguments: whenever the reference
+`unalign`, `renameRe`, `setAlpha`, `revcompSeqs`, `diffFirst`, `replaceMatch`, `mask`, `maskOcc`, `rmCharSites`, `rmMajSites`, `replaceRe`), arbitrary arguments: whenever the reference
 specifies the outcome of the operation on the observable content, the Go-shaped model yields exactly
 that content (names, row order, residues, policy, alphabet, kind) and that status, and the strong
 invariant holds again. -/
@@ -663,6 +714,9 @@ theorem step_refines (b : Bag) (h : Good b) (op : Op) (hw : OpWFR b op)
     | replaceMatch => exact ref_replaceMatch h
     | mask refseq start len mr nogap noref => exact ref_mask h refseq start len mr nogap noref
     | maskOcc refseq maxOcc mr => exact ref_maskOcc h refseq maxOcc mr
+    | rmCharSites cs num den ends ic ig iN rev => exact ref_rmCharSites h cs num den ends ic ig iN rev
+    | rmMajSites num den ends ig iN => exact ref_rmMajSites h num den ends ig iN
+    | replaceRe ok seqs => exact ref_replaceRe h ok seqs
   exact this s' st hs
 
 /-- the reference model run over a history: final content and the status of every step; `none` as
@@ -728,6 +782,48 @@ theorem obs_idByName (b : Bag) (n : String) :
 /-- the cached length of an alignment = the reference's length (first row, `-1` when empty) -/
 theorem obs_length (b : Bag) (h : Good b) (ha : b.isAlign = true) : b.length = (abs b).length :=
   (h.rect.abs_length ha).symm
+
+/-! ### the container-level `DiffWithFirst` / `ReplaceMatchChars` are the row-level models of property C04 -/
+
+/-- **`DiffWithFirst` on a rectangular alignment: the container model (loop over the row pointers, in-place writes) never
+panics, shows exactly the rows the C04 row-level model `Model.diffWithFirst` computes from the rows shown before, and keeps
+ids, names, index, cached length and every row length** -/
+theorem diffWithFirst_agrees_with_row_model (b : Bag) (h : Rect b) (ha : b.isAlign = true) :
+    ∃ b', diffWithFirstBag b = some b' ∧ pairs b' = diffWithFirst (pairs b) ∧ SameShape b' b := by
+  refine ⟨_, diffWithFirstBag_rect h ha, ?_, sameShape_diffWithFirst (diffWithFirstBag_rect h ha)⟩
+  rw [pairs_againstFirst, againstFirst_diffSeq]
+
+/-- **`ReplaceMatchChars` likewise** (the container reads the CACHED length, the row-level model the first row's: on a
+rectangular alignment they are the same number) -/
+theorem replaceMatchChars_agrees_with_row_model (b : Bag) (h : Rect b) (ha : b.isAlign = true) :
+    ∃ b', replaceMatchCharsBag b = some b' ∧ pairs b' = replaceMatchChars (pairs b) ∧ SameShape b' b := by
+  refine ⟨_, replaceMatchCharsBag_rect h ha, ?_, sameShape_replaceMatchChars (replaceMatchCharsBag_rect h ha)⟩
+  rw [pairs_againstFirst, againstFirst_matchSeq]
+  intro f hf
+  have hmem : f ∈ pairs b := by
+    cases hp : pairs b with
+    | nil => rw [hp] at hf; simp at hf
+    | cons x t => rw [hp] at hf; simp only [List.head?_cons, Option.mem_def, Option.some.injEq] at hf; subst hf; simp
+  exact rect_pairs_len h ha f hmem
+
+/-- the same for the history step: whenever the current object is a rectangular alignment, the step `diffFirst` /
+`replaceMatch` succeeds and the rows shown afterwards are the C04 model's -/
+theorem step_diffFirst_is_row_model (b : Bag) (h : Rect b) (ha : b.isAlign = true) :
+    (stepOp b .diffFirst).2 = "ok" ∧ pairs (stepOp b .diffFirst).1 = diffWithFirst (pairs b) ∧
+    (stepOp b .replaceMatch).2 = "ok" ∧ pairs (stepOp b .replaceMatch).1 = replaceMatchChars (pairs b) := by
+  obtain ⟨b1, e1, p1, -⟩ := diffWithFirst_agrees_with_row_model b h ha
+  obtain ⟨b2, e2, p2, -⟩ := replaceMatchChars_agrees_with_row_model b h ha
+  simp only [stepOp, ha, Bool.not_true, Bool.false_eq_true, if_false, e1, e2]
+  exact ⟨trivial, p1, trivial, p2⟩
+
+-- the hypotheses of the agreement theorems are satisfiable: a rectangular alignment whose second row matches the first in two
+-- places and already carries a point
+def demoDiff : Bag := finalState (newAlign 1) [.add "a" [65, 67, 71, 84], .add "b" [65, 84, 71, 46]]
+set_option maxRecDepth 100000 in
+example : Rect demoDiff ∧ demoDiff.isAlign = true ∧
+    pairs (stepOp demoDiff .diffFirst).1 = [("a", [65, 67, 71, 84]), ("b", [46, 84, 46, 46])] ∧
+    pairs (stepOp demoDiff .replaceMatch).1 = [("a", [65, 67, 71, 84]), ("b", [65, 84, 71, 84])] :=
+  ⟨⟨by decide, by decide⟩, by decide, by decide, by decide⟩
 
 /-! ## non-vacuity -/
 
@@ -847,5 +943,54 @@ example : ∃ s' sts, specRun (abs (newAlign 1)) demoHist4 = some (s', sts) ∧
     rw [h] at h2
     simp only [Option.map_some, Option.some.injEq, Prod.mk.injEq] at h2
     exact ⟨r.1, r.2, rfl, this.1, this.2.1, h2.1, h2.2⟩
+
+-- the general site cleaning in a history: `RemoveCharacterSites` on the set {A, c} up to case, gaps not counted, in `ends`
+-- mode (the leading run of two qualifying columns and the trailing all-gap column - nothing counts there - go, the
+-- qualifying column in the middle stays); then `RemoveMajorityCharacterSites` at cutoff 1 (the constant column goes);
+-- then the general form on the gap character (no gap is left)
+def demoHist5 : List Op :=
+  [.add "a" [65, 97, 71, 65, 84, 45], .add "b" [97, 67, 84, 99, 84, 45], .add "c" [45, 65, 71, 67, 84, 45],
+   .rmCharSites [65, 99] 1 1 true true true false false, .rmMajSites 1 1 false false false,
+   .rmCharSites [45] 0 1 false false false false false]
+
+set_option maxRecDepth 100000 in
+example : ∃ s' sts, specRun (abs (newAlign 1)) demoHist5 = some (s', sts) ∧
+    abs (finalState (newAlign 1) demoHist5) = s' ∧ (runOps (newAlign 1) demoHist5).map (·.2) = sts := by
+  have hsome : (specRun (abs (newAlign 1)) demoHist5).isSome = true := by decide
+  cases h : specRun (abs (newAlign 1)) demoHist5 with
+  | none => rw [h] at hsome; cases hsome
+  | some r =>
+    have := run_refines demoHist5 _ (good_of_empty_align 1) (by simp [demoHist5, HistWFR, OpWFR]) r.1 r.2 h
+    exact ⟨r.1, r.2, rfl, this.1, this.2.1⟩
+
+-- `Replace` with a regular expression, the new sequences supplied: a length-preserving one (every row of the alignment
+-- keeps 3 residues), an expression that does not compile, then one that shortens a row - the alignment reports an error
+-- and the reference stops specifying
+def demoHist6 : List Op :=
+  [.add "a" [65, 67, 71], .add "b" [65, 45, 84], .replaceRe true [[78, 67, 71], [78, 45, 84]], .replaceRe false []]
+
+set_option maxRecDepth 100000 in
+example : ∃ s' sts, specRun (abs (newAlign 1)) demoHist6 = some (s', sts) ∧
+    abs (finalState (newAlign 1) demoHist6) = s' ∧ (runOps (newAlign 1) demoHist6).map (·.2) = sts ∧
+    s'.rows = [("a", [78, 67, 71]), ("b", [78, 45, 84])] ∧ sts = ["ok", "ok", "ok", "err"] := by
+  have hsome : (specRun (abs (newAlign 1)) demoHist6).isSome = true := by decide
+  cases h : specRun (abs (newAlign 1)) demoHist6 with
+  | none => rw [h] at hsome; cases hsome
+  | some r =>
+    have := run_refines demoHist6 _ (good_of_empty_align 1) (by simp [demoHist6, HistWFR, OpWFR]) r.1 r.2 h
+    have h2 : (specRun (abs (newAlign 1)) demoHist6).map (fun r => (r.1.rows, r.2)) =
+        some ([("a", [78, 67, 71]), ("b", [78, 45, 84])], ["ok", "ok", "ok", "err"]) := by decide
+    rw [h] at h2
+    simp only [Option.map_some, Option.some.injEq, Prod.mk.injEq] at h2
+    exact ⟨r.1, r.2, rfl, this.1, this.2.1, h2.1, h2.2⟩
+
+example : (stepOp (finalState (newAlign 1) demoHist6) (.replaceRe true [[78, 67], [78, 45, 84]])).2 = "err" ∧
+    (Spec.stepOp (abs (finalState (newAlign 1) demoHist6)) (.replaceRe true [[78, 67], [78, 45, 84]])).1 = none := by
+  decide
+
+-- what the model shows after `demoHist5` (the cutoff test is float arithmetic: evaluated, not kernel-reduced)
+#guard (runOps (newAlign 1) demoHist5).map (·.2) =
+  ["ok", "ok", "ok", "ok[2,1,2+3+4,0+1+5]", "ok[0,1,0+1,2]", "ok[0,0,0+1,_]"]
+#guard pairs (finalState (newAlign 1) demoHist5) = [("a", [71, 65]), ("b", [84, 99]), ("c", [71, 67])]
 
 end Gv.Props.C01
